@@ -518,6 +518,15 @@ impl Prop for C09 {
                 (b.call, b.world, b.detail)
             }
         };
+        // one case in four: the server answers from another port than the one it listens on (another socket,
+        // a NAT): legal for UDP, and every later transmission must still go to the port the caller gave
+        let mut world = world;
+        if (idx / (FAMILIES * 625)) % 4 == 3 {
+            let listen = call.port.unwrap_or(call.default_port);
+            let other = 1024 + ((idx % 60_000) as u16);
+            world.net.reply_from_port = if other == listen { other + 1 } else { other };
+            out.probe("server_replies_from_another_port");
+        }
         let mut run = run_call(world, &call);
         if let Some(c) = &run.crash {
             out.violate(super::crash_violation(&format!("{}|", call.entry.family()), c));
